@@ -19,6 +19,15 @@ Ints(S) == {L(NInt(i), "int") : i \in S}
 Strs(S) == {L(NStr(s), "string") : s \in S}
 Neg1 == L(NUn("-", NInt(1)), "int")
 
+(* Family "oversize" (C05): BigB / BigI are sub-expressions whose code is      *)
+(* longer than the small-scope operand range (12 pushes = 36 bytes > 32) and  *)
+(* whose value does not depend on the literal's length.  The harness inflates *)
+(* the 12-element literal to 23000 elements (69 KB of code > 65535), so every *)
+(* jump the small-scope model finds overflowing overflows for real.           *)
+BigArr == NArr([i \in 1..12 |-> NInt(0)])
+BigB == L(NBin(">", NLen(BigArr), NInt(0)), "bool")
+BigI == L(NBin("*", NLen(BigArr), NInt(0)), "int")
+
 (* values each environment member ranges over *)
 ObjA == Obj("Obj", [N |-> IntV(3), Name |-> Str("ab"), Next |-> PtrNil("Obj"), Tags |-> Arr("string", <<Str("x"), Str("y")>>)])
 ObjB == Obj("Obj", [N |-> IntV(-1), Name |-> Str(""), Next |-> PtrTo("Obj", ObjA), Tags |-> Arr("nil[]string", <<>>)])
@@ -74,6 +83,9 @@ F_Leaves ==
                               Mem("I"), Mem("B"), Mem("S"), Mem("Xs"), Mem("F"), Mem("O"), Mem("P"), Mem("M"), Mem("Any")}
     [] Family = "alloc"  -> Ints({0, 1, 3}) \cup {Mem("I"), Mem("J"), Mem("Xs")}
     [] Family = "order"  -> Ints({0, 1, 2}) \cup {Mem("Xs"), Mem("I"), Mem("F"), Mem("S"), Mem("I64")}
+    [] Family = "laws"   -> Ints({0, 1, 2, 3}) \cup {Neg1, Mem("Xs"), Mem("Ys"), Mem("I"), Mem("J"), Mem("S"), Mem("Os"), Mem("Anys")}
+    [] Family = "promo"  -> {Mem(m) : m \in {"I", "I8", "I16", "I32", "I64", "U", "U8", "U16", "U32", "U64", "F32", "F"}}
+    [] Family = "oversize" -> Ints({7}) \cup {BigB, BigI, Mem("B"), Mem("I"), Mem("Xs"), Mem("P")}
 
 F_UnOps ==
   CASE Family = "arith" -> {"-", "+"}
@@ -92,12 +104,17 @@ F_BinOps ==
     [] Family = "mixed"  -> {"+", "*", "/", "==", "<", "and", "or", "in", ".."}
     [] Family = "alloc"  -> {"..", "+"}
     [] Family = "order"  -> {"in", "not in", ".."}
+    [] Family = "laws"   -> {">", "==", "%", "/", "and", "in", ".."}
+    [] Family = "promo"  -> {"+", "-", "*", "/", "%"} \cup CmpOps
+    [] Family = "oversize" -> {"and", "or", "==", "+"}
 
 F_Props ==
   CASE Family = "access" -> {Pr("N", FALSE), Pr("N", TRUE), Pr("Next", FALSE), Pr("Next", TRUE), Pr("Name", FALSE), Pr("Tags", TRUE)}
     [] Family = "builtin" -> {Pr("N", FALSE)}
     [] Family = "mixed" -> {Pr("N", FALSE), Pr("Next", TRUE), Pr("a", FALSE)}
     [] Family = "coll" -> {Pr("a", FALSE), Pr("z", FALSE)}
+    [] Family = "oversize" -> {Pr("N", TRUE)}
+    [] Family = "laws" -> {Pr("N", FALSE)}
     [] OTHER -> {}
 
 F_Meths ==
@@ -117,16 +134,19 @@ F_Builtins ==
   CASE Family = "builtin" -> AllBuiltins
     [] Family = "mixed" -> {"filter", "any", "map", "count"}
     [] Family = "alloc" -> {"map", "filter", "count"}
+    [] Family = "oversize" -> {"all", "filter", "map", "count"}
+    [] Family = "laws" -> {"all", "any"}
     [] OTHER -> {}
 
-F_UseLen  == Family \in {"string", "coll", "builtin", "mixed", "alloc"}
-F_UseCond == Family \in {"logic", "mixed", "builtin"}
+F_UseLen  == Family \in {"string", "coll", "builtin", "mixed", "alloc", "oversize"}
+F_UseCond == Family \in {"logic", "mixed", "builtin", "oversize"}
 F_UseIdx  == Family \in {"coll", "access", "string", "mixed", "builtin"}
 F_SliceShapes == CASE Family \in {"coll", "string"} -> {"ft", "f", "t", "n"} [] Family = "mixed" -> {"f", "ft"}
+                   [] Family = "laws" -> {"f"}
                    [] Family = "order" -> {"ft", "f", "t"} [] OTHER -> {}
 F_ArrLens == CASE Family \in {"coll", "mixed", "alloc"} -> {0, 1, 2} [] Family = "builtin" -> {2} [] OTHER -> {}
 F_MapLens == CASE Family = "coll" -> {0, 1, 2} [] Family \in {"mixed", "alloc"} -> {1} [] OTHER -> {}
-F_ElemLeaves == Family \in {"builtin", "mixed", "alloc"}
+F_ElemLeaves == Family \in {"builtin", "mixed", "alloc", "oversize", "laws"}
 F_OrderGuard == Family # "order"
 
 (* Constructs whose outcome on the pinned tree is a catalogued deviation     *)
@@ -138,11 +158,12 @@ F_OrderGuard == Family # "order"
 (* both bounds.                                                              *)
 RankAgree(a, b) == (a \in NumKinds /\ b \in NumKinds) => Higher(a, b, {}) = Higher(a, b, {"Dev_RankIntBelowInt8"})
 F_Guard(op, l, r, s) ==
-  /\ RankAgree(l.ty, r.ty)
+  /\ (Family # "promo" => RankAgree(l.ty, r.ty))
   /\ (op \in {"==", "!="} /\ (IsSliceT(l.ty) \/ IsSliceT(r.ty) \/ IsMapTy(l.ty) \/ IsMapTy(r.ty))
         => (r.e.k = "nil" \/ l.e.k = "nil" \/ (l.e.k = "id" /\ r.e.k = "id" /\ l.ty = r.ty)))
   /\ (op \in {"==", "!="} => ~(l.ty = "any" /\ (IsSliceT(r.ty) \/ IsMapTy(r.ty))) /\ ~(r.ty = "any" /\ (IsSliceT(l.ty) \/ IsMapTy(l.ty))))
-  /\ (op \in {"in", "not in"} /\ Family # "order" => r.e.k # "bin")
+  /\ (op \in {"in", "not in"} /\ Family \notin {"order", "laws"} => r.e.k # "bin")
+  /\ (op = "in" /\ Family = "laws" => (l.ty = "int" /\ r.e.k = "bin"))
   /\ (op \in {"in", "not in"} /\ r.e.k = "arr" => ~IsSliceT(l.ty) /\ ~IsMapTy(l.ty))
   /\ (op = ".." => l.ty # "any" /\ r.ty # "any")
 
@@ -158,7 +179,8 @@ Spec == Init /\ [][Next]_gvars
 F_Devs == CASE Family \in {"coll", "mixed"} -> {"Dev_InArrayStringUntyped"}
             [] Family = "order" -> {"Dev_SliceToBeforeFrom", "Dev_InRangeRewrite"}
             [] Family = "alloc" -> {"Dev_RangeSizeSigned"}
-            [] Family = "access" -> {"Dev_RankIntBelowInt8"}   \* any-typed operands: int8 result of I8Id with an int
+            [] Family = "laws" -> {"Dev_InRangeRewrite"}
+            [] Family \in {"access", "promo"} -> {"Dev_RankIntBelowInt8"}   \* any-typed operands: int8 result of I8Id with an int
             [] OTHER -> {}
 
 (* memory budgets each run is repeated under (C06); 0 stands for the default *)
@@ -176,6 +198,49 @@ Runs(t) ==
   IN {r \in rs : r.exp.ok \/ r.exp.c # "outside"}
 
 Case == [src |-> Src(Tree), ty |-> TreeTy, n |-> n, cdz |-> HasConstDivZero(Tree), cbp |-> HasConstBadPattern(Tree), runs |-> Runs(Tree)]
+
+(* C18: the defining identities of the collection builtins, of membership in *)
+(* an integer range and of slicing.  A complete tree of one of the root      *)
+(* shapes below yields the pairs (law, left, right) that must evaluate alike *)
+(* for every environment: both fail, or both succeed with equal values.      *)
+LawPairs(t) ==
+  (IF t.k = "bi" /\ t.name = "all"
+   THEN {<<"all = not any not", t, NUn("not", NBi("any", t.x, NUn("not", t.body)))>>,
+         <<"none = not any", NBi("none", t.x, t.body), NUn("not", NBi("any", t.x, t.body))>>,
+         <<"one = (count = 1)", NBi("one", t.x, t.body), NBin("==", NBi("count", t.x, t.body), NInt(1))>>,
+         <<"count = len filter", NBi("count", t.x, t.body), NLen(NBi("filter", t.x, t.body))>>,
+         <<"len map = len", NLen(NBi("map", t.x, t.body)), NLen(t.x)>>,
+         <<"filter keeps satisfying", NBi("all", NBi("filter", t.x, t.body), t.body), NBin("==", NInt(0), NInt(0))>>}
+   ELSE {})
+  \cup
+  (IF t.k = "bin" /\ t.op = "in" /\ t.r.k = "bin" /\ t.r.op = ".." /\ ~HasCall(t.l)
+   THEN {<<"in range = two-sided comparison", t, NBin("and", NBin(">=", t.l, t.r.l), NBin("<=", t.l, t.r.r))>>}
+   ELSE {})
+  \cup
+  (IF t.k = "slice" /\ t.from.k # "none" /\ t.to.k = "none" /\ ~HasCall(t.from) /\ ~HasCall(t.x)
+   THEN {<<"slicing partitions", NBin("+", NLen(NSlice(t.x, NNone, t.from)), NLen(t)), NLen(t.x)>>}
+   ELSE {})
+
+LawRun(a, b, asg) ==
+  LET rho == EnvOf(asg)
+      ea == Outcome(a, rho, DefaultBudget, {})
+      eb == Outcome(b, rho, DefaultBudget, {})
+      dvs == {d \in F_Devs : Outcome(a, rho, DefaultBudget, {d}) # ea}
+  IN [env |-> asg, exp |-> ea, exp2 |-> eb, dev |-> [d \in dvs |-> Outcome(a, rho, DefaultBudget, {d})]]
+
+InU(o) == o.ok \/ o.c # "outside"
+LawCase(lw) == [law |-> lw[1], src |-> Src(lw[2]), src2 |-> Src(lw[3]), n |-> n,
+                runs |-> {r \in {LawRun(lw[2], lw[3], asg) : asg \in Assignments(Mentions(lw[2]) \cup Mentions(lw[3]))} :
+                            InU(r.exp) /\ InU(r.exp2)}]
+
+(* the reference semantics itself satisfies the identities (checked by TLC): *)
+(* both sides succeed with the same value, or the left side fails only where *)
+(* the right side fails too or the failing operand is not evaluated by it    *)
+LawsHold == Complete =>
+  \A lw \in LawPairs(Tree) : \A r \in LawCase(lw).runs :
+     (r.exp.ok /\ r.exp2.ok) => r.exp.v = r.exp2.v
+
+EmitLaws == (Complete /\ EmitMode = "laws") => \A lw \in LawPairs(Tree) : PrintT(ToJson(LawCase(lw)))
 
 (* EmitMode "cases": print one JSON line per complete expression.          *)
 (* EmitMode "count": only evaluate the reference semantics (timing/stats). *)
